@@ -440,3 +440,128 @@ func checkC19Exotic(c *Ctx, n int) {
 		}
 	}
 }
+
+// checkC19Namespaces: an option one to four groups deep (optionally inside a command), every level
+// with or without a namespace and an env-namespace of its own.  The public model must report the
+// long name and the environment key with the namespaces in the order of the declaration, outermost
+// first, joined by the parser's delimiters; the option must answer to that long name and take its
+// default from that environment variable and from no other.
+func checkC19Namespaces(c *Ctx, n int) {
+	r := c.Rng
+	for i := 0; i < n; i++ {
+		depth := 1 + r.Intn(4)
+		nsDelim := []string{".", "-", "::", ""}[r.Intn(4)]
+		envDelim := []string{"_", "__", "."}[r.Intn(3)]
+		var nss, envs []string
+		leaf := &StructDesc{Fields: []FieldDesc{{Name: "Leaf", Exported: true, Kind: "v", Ty: "str", Tag: `long:"leaf" env:"LEAFKEY"`}}}
+		cur := leaf
+		// built innermost first; the lists are kept outermost first
+		for lvl := depth; lvl >= 1; lvl-- {
+			tag := quoteTag("group", fmt.Sprintf("Level %d", lvl))
+			ns, env := "", ""
+			if r.Intn(3) != 0 {
+				ns = fmt.Sprintf("n%d", lvl)
+				tag += " " + quoteTag("namespace", ns)
+			}
+			if r.Intn(3) != 0 {
+				env = fmt.Sprintf("E%d", lvl)
+				tag += " " + quoteTag("env-namespace", env)
+			}
+			nss = append([]string{ns}, nss...)
+			envs = append([]string{env}, envs...)
+			filler := FieldDesc{Name: fmt.Sprintf("Fill%d", lvl), Exported: true, Kind: "v", Ty: "bool", Tag: quoteTag("long", fmt.Sprintf("fill%d", lvl))}
+			cur = &StructDesc{Fields: []FieldDesc{filler, {Name: fmt.Sprintf("G%d", lvl), Exported: true, Kind: "s", Sub: cur, Tag: tag}}}
+		}
+		inCommand := r.Intn(3) == 0
+		var argv []string
+		if inCommand {
+			cur = &StructDesc{Fields: []FieldDesc{{Name: "Cmd", Exported: true, Kind: "s", Sub: cur, Tag: `command:"cmd"`}}}
+			argv = []string{"cmd"}
+		}
+		join := func(parts []string, last, delim string) string {
+			var out []string
+			for _, p := range parts {
+				if p != "" {
+					out = append(out, p)
+				}
+			}
+			return strings.Join(append(out, last), delim)
+		}
+		wantLong, wantEnv := join(nss, "leaf", nsDelim), join(envs, "LEAFKEY", envDelim)
+		// the declared variable holds the value; every other order of the same namespaces holds a decoy
+		env := []EnvVar{}
+		rev := append([]string{}, envs...)
+		for a, b := 0, len(rev)-1; a < b; a, b = a+1, b-1 {
+			rev[a], rev[b] = rev[b], rev[a]
+		}
+		if k := join(rev, "LEAFKEY", envDelim); k != wantEnv {
+			env = append(env, EnvVar{k, "decoy-reversed"})
+		}
+		if wantEnv != "LEAFKEY" {
+			env = append(env, EnvVar{"LEAFKEY", "decoy-bare"})
+		}
+		env = append(env, EnvVar{wantEnv, "from-the-declared-variable"})
+		cs := &Case{Name: "app", NsDelim: nsDelim, EnvNsDelim: envDelim, Env: env}
+		cs.Build = []BuildOp{{Kind: "addgroup", Target: 1, Short: "Application Options", Struct: cur}}
+		useFlag := r.Intn(2) == 0
+		if useFlag {
+			argv = append(argv, "--"+wantLong+"=from-the-flag")
+		}
+		cs.Ops = []Op{{Kind: "model"}, {Kind: "parse", Args: argv}}
+		cs.Description = fmt.Sprintf("namespaces %q / %q delimiters %q %q: %s", nss, envs, nsDelim, envDelim, describeOps(cs))
+		c.RunCases([]*Case{cs}, func(cr *CaseResult) {
+			c.classifyCase(cr)
+			if cr.Real == nil || cr.Real.dead {
+				return
+			}
+			c.Class(fmt.Sprintf("c19/namespaces depth=%d in-command=%v", depth, inCommand))
+			in := map[string]interface{}{"case": cs.Description, "namespaces": nss, "env_namespaces": envs}
+			fail := func(got, want string) {
+				in["case_file"] = c.saveCase(cr)
+				c.Check("namespaces-are-applied-outermost-first", false, "C19:namespaces", in, got, want)
+			}
+			var leafOpt *flags.Option
+			for _, cmd := range cr.Real.commandsPreorder() {
+				for _, grp := range allGroups(cmd) {
+					for _, o := range grp.Options() {
+						if o.Field().Name == "Leaf" {
+							leafOpt = o
+						}
+					}
+				}
+			}
+			if leafOpt == nil {
+				fail("option not in the public model", "option Leaf")
+				return
+			}
+			var gotLong, gotEnv string
+			if pan := safe(func() { gotLong, gotEnv = leafOpt.LongNameWithNamespace(), leafOpt.EnvKeyWithNamespace() }); pan != nil {
+				fail(fmt.Sprintf("panic: %v", pan), "normal return")
+				return
+			}
+			if gotLong != wantLong || gotEnv != wantEnv {
+				fail(fmt.Sprintf("long name %q, environment key %q", gotLong, gotEnv), fmt.Sprintf("long name %q, environment key %q", wantLong, wantEnv))
+				return
+			}
+			var obs parseObs
+			for _, o := range parseBlocks(cr) {
+				obs = o
+			}
+			want := "from-the-declared-variable"
+			if useFlag {
+				want = "from-the-flag"
+			}
+			cr.Real.register()
+			fr, ok := cr.Real.fields["Leaf"]
+			if obs.errKind != "ok" || !ok || !fr.val.IsValid() || fr.val.String() != want {
+				got := fmt.Sprintf("%s %s type %d %q", obs.panic, obs.errKind, obs.errType, obs.errMsg)
+				if ok && fr.val.IsValid() {
+					got += fmt.Sprintf(" Leaf=%q", fr.val.String())
+				}
+				fail(got, "Leaf="+want)
+				return
+			}
+			c.Check("namespaces-are-applied-outermost-first", true, "", nil, "", "")
+		})
+	}
+}
